@@ -325,10 +325,10 @@ pub fn def() -> CheckDef {
             "NSAP is the fixed 20-byte layout the library documents (RFC 1706 allows other lengths)",
         ],
         sections: vec![
-            Box::new(PropSection { name: "parse", rule: "reference encoding -> parse -> values", strategy: parse_strategy, cases: (40_000, 1_500_000), check: check_parse }),
-            Box::new(PropSection { name: "build", rule: "values -> build -> bytes == reference", strategy: build_strategy, cases: (40_000, 1_500_000), check: check_build }),
-            Box::new(PropSection { name: "opt", rule: "OPT pseudo-record both directions", strategy: opt_strategy, cases: (10_000, 300_000), check: check_opt }),
-            Box::new(PropSection { name: "rules", rule: "structural rules and byte mutations", strategy: rule_strategy, cases: (40_000, 1_500_000), check: check_rule }),
+            Box::new(PropSection { name: "parse", rule: "reference encoding -> parse -> values", strategy: parse_strategy, cases: (200_000, 3_000_000), check: check_parse }),
+            Box::new(PropSection { name: "build", rule: "values -> build -> bytes == reference", strategy: build_strategy, cases: (200_000, 3_000_000), check: check_build }),
+            Box::new(PropSection { name: "opt", rule: "OPT pseudo-record both directions", strategy: opt_strategy, cases: (50_000, 600_000), check: check_opt }),
+            Box::new(PropSection { name: "rules", rule: "structural rules and byte mutations", strategy: rule_strategy, cases: (300_000, 3_000_000), check: check_rule }),
             Box::new(EnumSection { name: "samples", rule: "externally produced encodings", enumerate: enum_samples, check: check_sample, exhaustive: true }),
         ],
     }
